@@ -81,6 +81,10 @@ def cqans(qs):
     return clist(qs, lambda a: '(%s, %s)' % (cz(a['e']), cchunks(a['raw'])))
 
 
+def cpub(qs):
+    return clist(qs, lambda a: cchunks(a['pub']))
+
+
 def cname(s):
     return clist(list(s.encode('utf-8', 'surrogateescape')))
 
@@ -117,8 +121,9 @@ def full(o):
 
 def cobs(o):
     if full(o):
-        return '(mkObs %s false true %s %s %s %s %s)' % (clist(o['adderr']), cdump(o['dump']), cstat(o), cqans(o['q1']), cdump(o['dump3']), cqans(o['q3']))
-    return '(mkObs %s %s false %s %s [] %s [])' % (clist(o.get('adderr', [])), cb('addpanic' in o), EMPTY_DUMP, EMPTY_STAT, EMPTY_DUMP)
+        return '(mkObs %s false true %s %s %s %s %s %s %s)' % (clist(o['adderr']), cdump(o['dump']), cstat(o), cqans(o['q1']), cdump(o['dump3']), cqans(o['q3']),
+                                                             cpub(o['q1']), cpub(o['q3']))
+    return '(mkObs %s %s false %s %s [] %s [] [] [])' % (clist(o.get('adderr', [])), cb('addpanic' in o), EMPTY_DUMP, EMPTY_STAT, EMPTY_DUMP)
 
 
 def term(c, o):
@@ -240,7 +245,7 @@ def io_term(c, o):
         fstatus = 3 if 'rdpanic' in o and 'frderr' not in o else status(o, 'frderr', 'frdnil', None)
         if fstatus != 0:
             base = ([('ixkind', ckind(c)), ('list irec', '[]'), ('list (Z * Z * Z)', '[]'), ('ixstrat', 'SNil'),
-                     ('ixobs', '(mkObs [] false true %s %s [] %s [])' % (EMPTY_DUMP, EMPTY_STAT, EMPTY_DUMP))], 'mkCase %s %s %s %s %s')
+                     ('ixobs', '(mkObs [] false true %s %s [] %s [] [] [])' % (EMPTY_DUMP, EMPTY_STAT, EMPTY_DUMP))], 'mkCase %s %s %s %s %s')
             io = '(mkIO %s [] (mkBytes None 0 0) %s 0 %s %s [] [] false)' % (cz(fstatus), EMPTY_DUMP, EMPTY_STAT, EMPTY_DUMP)
             parts, fmt = base
             return (parts + [('list Z', clist(c['foreign'])), ('ioobs', io)], 'mkIOCase (' + fmt + ') (Some %s) %s')
